@@ -103,11 +103,16 @@ class Result(types.SimpleNamespace):
 class ScipyStubs:
     """Contract stubs.  Every call is logged in h.events."""
 
-    def __init__(self, h, assume_bracket=True, root_zero=True, bad_bracket="assume"):
+    def __init__(self, h, assume_bracket=True, root_zero=True, bad_bracket="assume",
+                 nondet_converged=False):
         """bad_bracket: 'assume' -- the bracket precondition f(a) f(b) <= 0 is part of the
         contract (paths violating it are outside the claim); 'raise' -- raise ValueError like
         scipy does (for code that catches it as a designed branch)."""
         self.h = h
+        # scipy's bracketing methods raise on non-convergence (disp=True), so a returned
+        # result is converged; nondet_converged=True also explores converged=False for code
+        # that reads the flag
+        self.nondet_converged = nondet_converged
         self.bad_bracket = bad_bracket
         self.assume_bracket = assume_bracket
         self.root_zero = root_zero
@@ -120,7 +125,7 @@ class ScipyStubs:
         self.calls.append(("root_scalar", method, bracket, xtol, rtol))
         h.event("root_scalar", method, "bracket" if bracket is not None else "secant")
         if h.mode == "conc" and not replaying(h, "root"):
-            h.nfresh += 2  # keep numbering aligned with the symbolic run (root, converged)
+            h.nfresh += 2 if self.nondet_converged else 1
             try:
                 return _so.root_scalar(f, args=args, method=method, bracket=bracket, x0=x0, x1=x1,
                                        xtol=xtol, rtol=rtol, **kw)
@@ -140,7 +145,7 @@ class ScipyStubs:
             h.assume(OR(AND(le(a, r), le(r, b)), AND(le(b, r), le(r, a))))
         else:
             r = h.fresh("root")
-        conv = h.flag("converged")
+        conv = h.flag("converged") if self.nondet_converged else True
         if conv and self.root_zero:
             h.assume(eq(f(r, *args), 0), "root_scalar contract: a converged result is a zero of "
                      "the function it was given")
